@@ -129,6 +129,12 @@ def one_tree(ctx, k):
         return
     # reset module state defensively (a failed elaboration must not leak into the next program)
     ctx.count('outcome', 'rejected' if rejected else 'accepted')
+    if rejected is not None and any(not lits(st) for _, _, st in asgs):
+        # an assignment under no predicate at all (top-level `otherwise` with nothing before it since the last
+        # `otherwise`): PyRTL has no select signal for it and refuses the program loudly; the property's notion of
+        # "conditionally assigned" does not cover an unconditional assignment, so either outcome is accepted
+        ctx.count('outcome', 'unconditional-assignment-rejected')
+        return
     if (rejected is not None) != want_reject:
         ctx.violation('accept-reject', 'program %s although two assignments to one target are %ssyntactically exclusive (%s)' % (
             'rejected' if rejected else 'accepted', '' if not want_reject else 'not ', rejected), replay)
